@@ -1,5 +1,5 @@
 """Checks of the sequential family: one generic pipeline, one list of plans per property and tier."""
-import json, random
+import json, random, re, shutil, subprocess
 from vlib import *
 from seqfam import *
 
@@ -59,10 +59,55 @@ def tagname(s):
     return "".join(ch if ch.isalnum() else "_" for ch in s)
 
 
-def make_check(prop, plans_of, rule, nontrivial, level="model_checking", assumptions=(), post=None):
+def merkle_link(work, rep, tier):
+    """MC_Merkle: the transcription of the pinned merkle verifier over a free term algebra agrees with the abstract
+    VerifyOK on the whole request menu (ASSUME MenuOK, Sound, RootIdFaithful); the emitted vectors are run through the
+    real proof.VerifyConsistency, the harness' own verifier and tlog.CheckTree."""
+    n, fork, nb = (7, "Fork_3_1", 3) if tier == "quick" else (12, "Fork_8_3", 3)
+    c = {"Logs": {"l1"}, "MaxSize": n, "NBranch": nb, "ForkAt": Sub(fork), "MaxLines": 6, "NWitKeys": 2, "ZeroWedge": True, "PadGuard": True, "EmitVectors": True}
+    cfg = cfg_text(init_next=("MInit", "MNext"), constants=c)
+    r = tlc(work, "MC_Merkle", cfg, name="merkle", workers=4, timeout=3000)
+    if not r.ok:
+        raise Inconclusive("MC_Merkle failed (the abstract VerifyOK is not justified): %s\n%s" % (r.error or r.violated, r.out[-2000:]))
+    vec = work.path("vectors.jsonl")
+    vs = r.prints("VEC")
+    open(vec, "w").write("\n".join(vs) + "\n")
+    o, dt = run_driver(["merkle", "-in", vec])
+    os.remove(vec)
+    m = re.search(r"MERKLE vectors=(\d+) accepted=(\d+) disagree_real=(\d+) disagree_ref=(\d+) disagree_tlog=(\d+)", o)
+    if not m:
+        raise Inconclusive("merkle driver output not understood: " + o[-500:])
+    rep.cov["merkle_link"] = {"sizes": "0..%d" % n, "branches": nb, "vectors": int(m.group(1)), "accepted": int(m.group(2)),
+                              "disagree_dependency": int(m.group(3)), "disagree_reference": int(m.group(4)), "disagree_tlog": int(m.group(5))}
+    if int(m.group(3)) or int(m.group(4)) or int(m.group(5)):
+        raise Inconclusive("the specification's transcription of the consistency verifier disagrees with the pinned dependency / the references on %s vectors: %s"
+                           % (m.group(3), o[-800:]))
+
+
+def tlaps_chain(work, rep):
+    """unbounded chain invariant (everything ever cosigned is a prefix of what is held) from Merkle soundness + transitivity"""
+    d = work.sub("tlaps")
+    shutil.copy(os.path.join(SPEC, "ChainProof.tla"), d)
+    try:
+        rc, out, dt = sh(["tlapm", "--threads", str(NCPU), "--cleanfp", "ChainProof.tla"], cwd=d, timeout=900)
+    except subprocess.TimeoutExpired:
+        rep.notes.append("tlapm timed out; unbounded chain proof not re-checked in this run")
+        return
+    m = re.search(r"All (\d+) obligations? proved", out)
+    if m:
+        rep.cov["tlaps_chain_proof"] = {"obligations": int(m.group(1)), "discharged": int(m.group(1)), "wall_s": round(dt, 1),
+                                        "assumes": ["Prefix reflexive/transitive", "Merkle soundness (checked bounded by MC_Merkle)"]}
+    else:
+        rep.notes.append("tlapm did not prove all obligations of ChainProof.tla: " + out[-400:])
+
+
+def make_check(prop, plans_of, rule, nontrivial, level="model_checking", assumptions=(), post=None, pre=None):
     def check(work, tier, seed, replay):
         rep = Report(prop, tier, seed, level)
         rng = random.Random(seed)
+        build_driver()
+        if pre:
+            pre(work, rep, tier)
         for pl in plans_of(tier):
             c = pl.c
             r, edges = model_check(work, rep, pl.name, c, spec=pl.spec)
@@ -200,7 +245,8 @@ def c01_plans(tier):
 CHECKS["C01"] = make_check("C01", c01_plans,
     "every transition of the bounded adversarial model (forked and junk roots, every old size, empty/genuine/replayed/mutated proofs) executed from its "
     "pre-state, plus random walks over the emitted transition graph; judged by AppendOnly and ChainOK on the observed stored values and cosigned outputs; "
-    "distinct = distinct (pre-state, well-signed request, verdict)", good_known)
+    "distinct = distinct (pre-state, well-signed request, verdict)", good_known,
+    pre=lambda work, rep, tier: (merkle_link(work, rep, tier), tlaps_chain(work, rep) if tier != "quick" else None))
 
 # ----------------------------------------------------------------------------- C09
 
@@ -214,7 +260,8 @@ def c09_plans(tier):
 CHECKS["C09"] = make_check("C09", c09_plans,
     "every transition of the one-step model MC_Decision (every stored value x every request of the menu: (stored, submitted, old) cubed x same/forked/junk root x "
     "empty/genuine/replayed/mutated proofs) executed on a real witness from its pre-state; verdict and returned bytes judged by FirstMatch = SpecVerdict; "
-    "the reference RFC 6962 verifier is run on the concrete proof bytes (three-way agreement); distinct = distinct (pre-state, well-signed request, verdict)", good_known)
+    "the reference RFC 6962 verifier is run on the concrete proof bytes (three-way agreement); distinct = distinct (pre-state, well-signed request, verdict)", good_known,
+    pre=merkle_link)
 
 # ----------------------------------------------------------------------------- C03
 
